@@ -220,7 +220,8 @@ class Negotiated:
             for capa in sent_ms_capa:
                 # no need to check that the capability exists, we generated it
                 # checked it is what we sent and only send MULTIPROTOCOL
-                if sent_capa[capa] != recv_capa[capa]:
+                # the peer may announce multi-session without the capability the session id is made of
+                if sent_capa.get(capa) != recv_capa.get(capa):
                     self.multisession = (
                         2,
                         8,
